@@ -20,6 +20,8 @@ const (
 	vfC13SigPagedRevocationToken = "paged-revocation-token-loses-trigger"
 	// see vfC13ShapeResumeForgetsLoss
 	vfC13SigResumeForgetsLoss = "resumed-pull-forgets-earlier-loss"
+	// see vfC13ShapeCoalescedInvalidation
+	vfC13SigCoalescedInvalidation = "coalesced-invalidation-records-early-loss"
 )
 
 // vfC13LossyRevocationToken: the structural signature of vfC13SigPagedRevocationToken on a row.
@@ -27,18 +29,35 @@ func vfC13LossyRevocationToken(e *ChangeEntry) bool {
 	return e != nil && e.Revoked && e.Seq.TriggeredBy != 0 && e.Seq.Seq >= e.Seq.TriggeredBy
 }
 
-// vfC13ShapeResumeForgetsLoss: a page boundary directly after a row with a compound token t:s
-// (inside a back-fill or a revocation triggered at t). On resume the grant history is compared
-// against t (t-1 for the channel revoked at t) instead of the replica's position before the pull,
-// so an access period that ended between that position and t no longer counts: a held document that
-// sat in a lost channel X only during such an earlier period is not revoked.
-func vfC13ShapeResumeForgetsLoss(m *vfC13Model, rep *vfC13Replica, last *ChangeEntry) (sig, detail string) {
+// vfC13HeldAfterPage: the replica's held set once the plain drop rows of the page are applied (the
+// boundary predicates look at what is still to be handled after the page).
+func vfC13HeldAfterPage(held map[string]string, page []*ChangeEntry) map[string]string {
+	out := make(map[string]string, len(held))
+	for k, v := range held {
+		out[k] = v
+	}
+	for _, e := range page {
+		if e.Revoked || e.allRemoved || e.Deleted {
+			delete(out, e.ID)
+		}
+	}
+	return out
+}
+
+// vfC13ShapeResumeForgetsLoss: a page boundary directly after a row with token T. On resume the
+// grant history is compared against the token (a compound token t:s: against t, or t-1 for the
+// channel revoked at t) instead of the replica's position before the pull, so an access period that
+// ended between that position and the token no longer counts - although its revocation rows may be
+// still to come, because they are issued under the latest trigger of the channel. A held document
+// that sat in a lost channel X only during such an earlier period is not revoked.
+func vfC13ShapeResumeForgetsLoss(m *vfC13Model, held map[string]string, last *ChangeEntry) (sig, detail string) {
 	t, s := last.Seq.TriggeredBy, last.Seq.Seq
-	if t == 0 || s >= t {
-		return "", ""
+	compound := t != 0 && s < t
+	if !compound {
+		t = s
 	}
 	eff := m.Effective(vfC13Client)
-	for _, id := range vfSortedKeys(rep.Held) {
+	for _, id := range vfSortedKeys(held) {
 		if m.Visible(vfC13Client, id) {
 			continue
 		}
@@ -55,7 +74,7 @@ func vfC13ShapeResumeForgetsLoss(m *vfC13Model, rep *vfC13Replica, last *ChangeE
 			if c.Active {
 				entry = d.Seq
 			}
-			if entry <= s {
+			if compound && entry <= s {
 				continue // already delivered in this or an earlier page
 			}
 			periods := m.Periods[vfC13Client][x]
@@ -65,7 +84,7 @@ func vfC13ShapeResumeForgetsLoss(m *vfC13Model, rep *vfC13Replica, last *ChangeE
 			lastEnd := periods[len(periods)-1].End
 			safe := false
 			for _, p := range periods {
-				if !(p.End > t || (p.End == t && lastEnd == t)) {
+				if !(p.End > t || (compound && p.End == t && lastEnd == t)) {
 					continue
 				}
 				for _, h := range d.Hist[x] {
@@ -75,8 +94,33 @@ func vfC13ShapeResumeForgetsLoss(m *vfC13Model, rep *vfC13Replica, last *ChangeE
 				}
 			}
 			if !safe {
-				return vfC13SigResumeForgetsLoss, fmt.Sprintf("boundary at %s; %s (entry in %s at %d) was covered only by access periods of %s that ended before %d: %v", last.Seq, id, x, entry, x, t, periods)
+				return vfC13SigResumeForgetsLoss, fmt.Sprintf("boundary at %s; %s (entry in %s at %d) was covered only by access periods of %s that ended at or before %d: %v", last.Seq, id, x, entry, x, t, periods)
 			}
+		}
+	}
+	return "", ""
+}
+
+// vfC13ShapeCoalescedInvalidation: a page boundary while a held document is still to be dropped,
+// after the client user's grant sources changed at least twice since the pull's starting position
+// with the first of those changes at or before the boundary token. Grant changes that reach a
+// principal before it is next loaded are all recorded under the sequence of the first one, so a
+// channel lost by a later change is recorded as lost earlier; a resume position between the two
+// treats the loss as already delivered.
+func vfC13ShapeCoalescedInvalidation(m *vfC13Model, held map[string]string, last *ChangeEntry, accessOps []uint64) (sig, detail string) {
+	if len(accessOps) < 2 {
+		return "", ""
+	}
+	c := last.Seq.Seq
+	if t := last.Seq.TriggeredBy; t != 0 && c < t {
+		c = t
+	}
+	if accessOps[0] > c {
+		return "", ""
+	}
+	for _, id := range vfSortedKeys(held) {
+		if !m.Visible(vfC13Client, id) {
+			return vfC13SigCoalescedInvalidation, fmt.Sprintf("boundary at %s, grant sources changed at %v since the pull started, %s still to be dropped", last.Seq, accessOps, id)
 		}
 	}
 	return "", ""
@@ -90,12 +134,21 @@ func (r *vfC13Run) installAvoidance() {
 			r.rec.Excluded(vfC13SigPagedRevocationToken)
 			return true
 		}
-		if sig, _ := vfC13ShapeResumeForgetsLoss(r.w.M, r.w.R, last); sig != "" && kit.Known("C13", sig) {
+		held := vfC13HeldAfterPage(r.w.R.Held, page)
+		if sig, _ := vfC13ShapeResumeForgetsLoss(r.w.M, held, last); sig != "" && kit.Known("C13", sig) {
+			r.rec.Excluded(sig)
+			return true
+		}
+		if sig, _ := vfC13ShapeCoalescedInvalidation(r.w.M, held, last, r.w.AccessOps); sig != "" && kit.Known("C13", sig) {
 			r.rec.Excluded(sig)
 			return true
 		}
 		if t, s := last.Seq.TriggeredBy, last.Seq.Seq; t != 0 && s < t {
-			if sig, _ := vfC13ShapeDeletedRole(r.w.M, r.w.R.Held, s); sig != "" && kit.Known("C13", sig) {
+			if sig, _ := vfC13ShapeDeletedRole(r.w.M, held, s); sig != "" && kit.Known("C13", sig) {
+				r.rec.Excluded(sig)
+				return true
+			}
+			if sig, _ := vfC13ShapeRoleClip(r.w.M, held, s); sig != "" && kit.Known("C13", sig) {
 				r.rec.Excluded(sig)
 				return true
 			}
@@ -264,6 +317,8 @@ const (
 	vfC13SigSourceSwitch     = "grant-source-switch-hides-removal"
 	vfC13SigDeletedRole      = "deleted-role-access-period-ignored"
 	vfC13SigRecreatedRole    = "recreated-role-keeps-old-grant-sequence"
+	vfC13SigRoleClip         = "role-reassignment-clips-access-period"
+	vfC13SigRecreatedHistory = "recreated-role-forgets-channel-history"
 )
 
 // vfC13ShapeBackfillHides: the replica holds a document the user will not see any more; the
@@ -344,6 +399,85 @@ func vfC13ShapeDeletedRole(post *vfC13Model, held map[string]string, pos uint64)
 	return "", ""
 }
 
+// vfC13ShapeRoleClip: the user has been assigned role R without interruption, but the earliest
+// current source of that assignment is newer than the moment R stopped conferring channel X (an
+// older source was dropped after a newer one appeared). Past access periods through a current role
+// are clipped to the current assignment stamp, so the period in which R conferred X vanishes and a
+// held document whose entry in X is newer than the position is not revoked.
+func vfC13ShapeRoleClip(post *vfC13Model, held map[string]string, pos uint64) (sig, detail string) {
+	roles := post.userRoles(vfC13Client)
+	eff := post.Effective(vfC13Client)
+	for _, id := range vfSortedKeys(held) {
+		if post.Visible(vfC13Client, id) {
+			continue
+		}
+		d := post.Docs[id]
+		if d == nil {
+			continue
+		}
+		for _, rn := range vfSortedKeys(roles) {
+			role := post.Roles[rn]
+			stamp := roles[rn]
+			if role == nil || !post.roleLive(rn) || post.MemStart[vfC13Client][rn] >= stamp {
+				continue
+			}
+			cur := post.roleChans(rn)
+			for _, x := range vfSortedKeys(role.Had) {
+				if _, has := eff[x]; has {
+					continue
+				}
+				if _, still := cur[x]; still {
+					continue
+				}
+				c, ok := d.Chans[x]
+				if !ok || role.Had[x] < pos || stamp <= pos {
+					continue
+				}
+				entry := c.Seq
+				if c.Active {
+					entry = d.Seq
+				}
+				if entry > pos {
+					return vfC13SigRoleClip, fmt.Sprintf("%s has an entry in %s at %d > position %d; role %s conferred %s until after %d, assigned since %d but stamped %d", id, x, entry, pos, rn, x, role.Had[x], post.MemStart[vfC13Client][rn], stamp)
+				}
+			}
+		}
+	}
+	return "", ""
+}
+
+// vfC13ShapeRecreatedHistory: the operation re-creates a deleted role that is assigned to the user
+// and conferred channel X at or after the replica's position, in a named collection (the channel
+// history of a re-created role is carried over for the default collection only). The revocation of
+// X is forgotten with the history.
+func vfC13ShapeRecreatedHistory(pre, post *vfC13Model, o vfC13Op, held map[string]string, pos uint64, defaultCollection bool) (sig, detail string) {
+	if o.Kind != "role" || defaultCollection {
+		return "", ""
+	}
+	role := pre.Roles[o.ID]
+	if role == nil || !role.Deleted {
+		return "", ""
+	}
+	if _, assigned := pre.userRoles(vfC13Client)[o.ID]; !assigned {
+		return "", ""
+	}
+	for _, id := range vfSortedKeys(held) {
+		if post.Visible(vfC13Client, id) {
+			continue
+		}
+		d := post.Docs[id]
+		if d == nil {
+			continue
+		}
+		for _, x := range vfSortedKeys(role.Had) {
+			if _, ok := d.Chans[x]; ok && role.Had[x] >= pos {
+				return vfC13SigRecreatedHistory, fmt.Sprintf("%s sits in %s which deleted role %s conferred until after %d (position %d)", id, x, o.ID, role.Had[x], pos)
+			}
+		}
+	}
+	return "", ""
+}
+
 // vfC13ShapeRecreatedRole: the operation creates (or re-creates) a role the user is already
 // assigned, a live document has been granting channel X to that role since before the replica's
 // position, the user was without X at some point since that position, and X holds a document the
@@ -390,7 +524,13 @@ func (r *vfC13Run) avoidKnownShapes(o vfC13Op, post *vfC13Model) (drop bool) {
 	for attempt := 0; ; attempt++ {
 		sig, _ := vfC13ShapeBackfillHides(post, r.w.R)
 		if sig == "" || !kit.Known("C13", sig) {
-			sig, _ = vfC13ShapeDeletedRole(post, r.w.R.Held, r.w.R.Pos())
+			sig, _ = vfC13ShapeDeletedRole(post, r.w.R.Held, r.w.R.LowPos())
+		}
+		if sig == "" || !kit.Known("C13", sig) {
+			sig, _ = vfC13ShapeRoleClip(post, r.w.R.Held, r.w.R.LowPos())
+		}
+		if sig == "" || !kit.Known("C13", sig) {
+			sig, _ = vfC13ShapeRecreatedHistory(r.w.M, post, o, r.w.R.Held, r.w.R.LowPos(), r.defColl)
 		}
 		if sig == "" || !kit.Known("C13", sig) {
 			break
@@ -410,4 +550,52 @@ func (r *vfC13Run) avoidKnownShapes(o vfC13Op, post *vfC13Model) (drop bool) {
 		return true
 	}
 	return false
+}
+
+// ---------------------------------------------------------------------------------------------
+// regression reproductions: one minimal deterministic history per listed finding, run against the
+// real code with nothing avoided. A reproduction that still fails prints KNOWN-FINDING (never a
+// violation); one that holds prints a note (the finding may have been repaired: set its status to
+// "fixed" and the generators produce the shape again).
+
+var vfC13Reproductions = []struct{ Sig, Script string }{
+	{vfC13SigPagedRevocationToken, "open defaultCollection=true; user u chans=[B C]; put d2 chans=[B]; put d3 chans=[C]; pull limits=[0]; user u chans=[C]; user u chans=[]; put d2 chans=[B]; pull limits=[1]"},
+	{vfC13SigResumeForgetsLoss, "open defaultCollection=true; user u chans=[A]; put d1 chans=[A]; put d2 chans=[A]; pull limits=[0]; user u chans=[]; put d2 chans=[B]; user u chans=[A]; user u chans=[]; pull limits=[1]"},
+	{vfC13SigBackfillDeletion, "open defaultCollection=true; user u chans=[C]; put d5 chans=[C]; pull limits=[0]; user u chans=[]; del d5; user u chans=[C]; pull limits=[0]"},
+	{vfC13SigBackfillRemoval, "open defaultCollection=true; user u chans=[C]; put d5 chans=[C]; pull limits=[0]; user u chans=[]; put d5 chans=[B]; user u chans=[C]; pull limits=[0]"},
+	{vfC13SigSourceSwitch, "open defaultCollection=true; role r1 chans=[C]; user u chans=[C]; put d5 chans=[C]; pull limits=[0]; del d5; user u chans=[C] roles=[r1]; user u chans=[] roles=[r1]; pull limits=[0]"},
+	{vfC13SigDeletedRole, "open defaultCollection=true; role r1 chans=[C]; user u chans=[] roles=[r1]; put d5 chans=[C]; pull limits=[0]; put d5 chans=[C]; delrole r1; pull limits=[0]"},
+	{vfC13SigRecreatedRole, "open defaultCollection=true; user u chans=[B] roles=[r1]; put d1 chans=[] access([role:r1],[C]); put d5 chans=[C]; put d2 chans=[B]; pull limits=[0]; role r1 chans=[]; pull limits=[0]"},
+	{vfC13SigRoleClip, "open defaultCollection=true; role r2 chans=[B]; user u chans=[] roles=[r2]; put d5 chans=[B]; pull limits=[0]; role r2 chans=[]; put d3 chans=[] role([u],[role:r2]); user u roles=[]; del d5; pull limits=[0]"},
+	{vfC13SigRecreatedHistory, "open defaultCollection=false; role r1 chans=[B]; user u chans=[] roles=[r1]; put d2 chans=[B]; pull limits=[0]; delrole r1; role r1 chans=[]; pull limits=[0]"},
+}
+
+func TestVerif_C13_Known(t *testing.T) {
+	rec := kit.New("C13", "Known")
+	defer rec.Flush()
+	defer SuspendSequenceBatching()()
+	for _, rp := range vfC13Reproductions {
+		rp := rp
+		t.Run(rp.Sig, func(t *testing.T) {
+			fail, render, err := vfC13RunScript(t, rp.Script)
+			rec.Class("reproductions", 1)
+			switch {
+			case err != nil:
+				rec.Inconclusive()
+				kit.InconclusiveLine("C13", "reproduction of %s could not run: %v", rp.Sig, err)
+			case fail != nil && kit.Known("C13", rp.Sig):
+				rec.Class("reproductions.still-failing", 1)
+				what := fail.What
+				if i := strings.Index(what, ". client holds"); i > 0 {
+					what = what[:i]
+				}
+				kit.KnownFinding("C13", rp.Sig, fmt.Sprintf("%s [reproduction: %s] -> %s", kit.KnownWhat("C13", rp.Sig), render, what))
+			case fail != nil:
+				kit.Note("C13", "reproduction of %s fails but the signature is not listed as open; the generated families decide: %s", rp.Sig, fail.What)
+			default:
+				kit.Note("C13", "reproduction of %s holds now (finding repaired?): %s", rp.Sig, render)
+			}
+		})
+	}
+	rec.Sample("deterministic reproductions of the listed known findings (regression only, decide nothing)")
 }
